@@ -43,6 +43,30 @@ pub struct ExecPlan {
     pub len: Option<usize>,
 }
 
+/// Marker that starts the message of the panic with which a scripted body fails.
+pub const SCRIPTED_BODY_PANIC: &str = "VERIF-SCRIPTED-BODY-PANIC";
+
+/// Something the next executing body of function `at_fid` on this thread does before it
+/// returns: re-entrancy (the body calls another decorated function — possibly itself with other
+/// arguments — like a recursive memoised function does) or a panic of the user's own code.
+#[derive(Clone, Copy)]
+pub struct NestedPlan {
+    pub at_fid: u32,
+    /// the decorated call made from inside the body
+    pub call: Option<(fn(u32) -> CallOut, u32)>,
+    pub plan: Option<ExecPlan>,
+    pub pred: Option<bool>,
+    pub check: Option<bool>,
+    /// the body panics (after the nested call, if any)
+    pub panic: bool,
+}
+/// What the nested call did: its result (or the text of its panic) and its own events.
+pub struct NestedOut {
+    pub out: Option<Result<CallOut, String>>,
+    pub events: Vec<Event>,
+    pub panicked_body: bool,
+}
+
 /// What `enter` hands to the body.
 #[derive(Clone, Copy, Debug)]
 pub struct Exec {
@@ -57,6 +81,8 @@ struct Tl {
     pred: Option<bool>,
     check: Option<bool>,
     log: Vec<Event>,
+    nested: Option<NestedPlan>,
+    nested_out: Option<NestedOut>,
 }
 
 thread_local! {
@@ -100,6 +126,25 @@ pub fn arm_pred(v: Option<bool>) {
 pub fn arm_check(v: Option<bool>) {
     TL.with(|t| t.borrow_mut().check = v);
 }
+pub fn arm_nested(p: Option<NestedPlan>) {
+    TL.with(|t| {
+        let mut t = t.borrow_mut();
+        t.nested = p;
+        t.nested_out = None;
+    });
+}
+pub fn take_nested() -> Option<NestedOut> {
+    TL.with(|t| t.borrow_mut().nested_out.take())
+}
+fn panic_text(p: Box<dyn std::any::Any + Send>) -> String {
+    if let Some(s) = p.downcast_ref::<&str>() {
+        s.to_string()
+    } else if let Some(s) = p.downcast_ref::<String>() {
+        s.clone()
+    } else {
+        "non-string panic".into()
+    }
+}
 pub fn take_log() -> Vec<Event> {
     TL.with(|t| std::mem::take(&mut t.borrow_mut().log))
 }
@@ -142,6 +187,41 @@ pub fn enter(fid: u32, digest: u64) -> Exec {
     if h != 0 {
         let f: BodyHook = unsafe { std::mem::transmute::<usize, BodyHook>(h) };
         f(fid, digest);
+    }
+    let np = TL.with(|t| {
+        let mut t = t.borrow_mut();
+        if t.nested.map_or(false, |n| n.at_fid == fid) {
+            t.nested.take()
+        } else {
+            None
+        }
+    });
+    if let Some(np) = np {
+        let mut no = NestedOut { out: None, events: vec![], panicked_body: np.panic };
+        if let Some((call, slot)) = np.call {
+            // the nested call has its own script and its own event log
+            let (o_pred, o_check, o_log) = TL.with(|t| {
+                let mut t = t.borrow_mut();
+                let saved = (t.pred, t.check, std::mem::take(&mut t.log));
+                t.plan = np.plan;
+                t.pred = np.pred;
+                t.check = np.check;
+                saved
+            });
+            let r = std::panic::catch_unwind(move || call(slot));
+            TL.with(|t| {
+                let mut t = t.borrow_mut();
+                no.events = std::mem::replace(&mut t.log, o_log);
+                t.plan = None;
+                t.pred = o_pred;
+                t.check = o_check;
+            });
+            no.out = Some(r.map_err(panic_text));
+        }
+        TL.with(|t| t.borrow_mut().nested_out = Some(no));
+        if np.panic {
+            panic!("{} in the body of function {}", SCRIPTED_BODY_PANIC, fid);
+        }
     }
     ex
 }
